@@ -267,12 +267,17 @@ class Run:
 
     def one(self, *a, **k):
         from vf.simnet.harness import Inconclusive
+        n0 = len(self.wit)
         c = Case(self, *a, **k)
         try:
             c.execute()
         except Inconclusive as e:
             self.cov["inconclusive_cases"] = self.cov.get("inconclusive_cases", 0) + 1
             self.last_inconclusive = str(e)
+        if c.h.thread_exc and len(self.wit) > n0:
+            # a node thread died in this case (C14's subject): what the other oracles saw afterwards is void
+            del self.wit[n0:]
+            self.cov["cases_voided_by_thread_death"] = self.cov.get("cases_voided_by_thread_death", 0) + 1
         self.evals += 1
         sp = c.spec
         self.cov["submissions_judged"] += c.judged
